@@ -73,6 +73,12 @@ PY_FILLERS = [
     ("py-chain5000", "(" + "+".join(["x"] * 5000) + ")"),       # RecursionError in the compiler
     ("py-hugeint", "(" + "9" * 6000 + ")"),                     # exceeds the int literal limit
 ]
+# Fillers with a comfortable margin below CPython's own limits (nesting <= 60, chains <= 200, no oversized literal): only for
+# these is the RENDERED output of a directive holding the filler compared.  For the others the judged outcome is the LEXING
+# outcome (a tree that accounts for the source, or a Mako exception; never a raw exception); that the module GENERATED around
+# an expression standing at a CPython limit does not compile is recorded in the evidence, not a verdict.  Literal placements
+# (plain text, <%text>, <%doc>, ##) must reproduce every filler verbatim, whatever its class.
+PY_NEAR_LIMIT = {"py-deep200", "py-chain600", "py-chain5000", "py-hugeint"}
 O_NAMES = O_NAMES + [n for n, _ in PY_FILLERS]
 O_CLASSES = O_CLASSES + [t for _, t in PY_FILLERS]
 O_POOL, V_POOL = O_CLASSES, V_CLASSES
@@ -479,6 +485,18 @@ def expected_render(alt, m, ctx):
     return ("ok", "".join(out))
 
 
+def filler_in_python(alt):
+    """Does the filler symbol stand inside the Python text of a directive of this outcome (rather than in literal text)?"""
+    for n in alt["n"]:
+        if n["k"] in ("expr", "code") and ("o" in n["b"] or "o" in n.get("f", [])):
+            return True
+        if n["k"] == "ctl" and n["b"][0] == "IFO":
+            return True
+        if n["k"] == "tag" and n["b"][0] == "IN":
+            return True
+    return False
+
+
 def make_ctx():
     ctx = {}
     for i, nm in enumerate(W_POOL + U_POOL + ["text", "doc", "def", "block"]):
@@ -613,6 +631,9 @@ def check_string(job):
             robs = run_render(given, ctx, pre, form, entry)
             good = (exp[0] == "ok" and robs[0] == "ok" and robs[1] == exp[1]) or \
                    (exp[0] == "exc" and robs[0] == "exc" and robs[1] == exp[1])
+            if not good and pycls in PY_NEAR_LIMIT and filler_in_python(hit[0]) and robs[0] == "exc":
+                # the lexing outcome was right; the generated module around a filler at a CPython limit failed: evidence only
+                return {"evidence": "near-limit-module-failure", "class": pycls, "text": text[:80], "observed": robs[:2]}, rendered
             if not good:
                 feats = [f for f in SPECIAL if f in hit[0]["ft"]]
                 site = feats[0] if feats else "render"
@@ -677,6 +698,14 @@ def enumerate_strings(run, name, syms, k, prefix=(), extra=(), first=None, with_
     return res, by
 
 
+def _note_evidence(run, r):
+    ev = run.extra.setdefault("near_limit_module_failures", {})
+    key = "%s:%s" % (r["class"], r["observed"][1])
+    ev[key] = ev.get(key, 0) + 1
+    if len(run.extra.setdefault("near_limit_examples", [])) < 4:
+        run.extra["near_limit_examples"].append(r["text"])
+
+
 def replay(run, label, by, procs, render_every=1, all_classes=False):
     jobs = []
     lead = {"o": 0, "v": 0}
@@ -708,6 +737,9 @@ def replay(run, label, by, procs, render_every=1, all_classes=False):
             if len(run.extra.setdefault("error_position_examples", [])) < 5:
                 run.extra["error_position_examples"].append(" ".join(syms))
         rendered += rn
+        if r is not None and r.get("evidence"):
+            _note_evidence(run, r)
+            r = None
         if r is not None:
             bad += 1
             r["concretisation_seed"] = h
@@ -735,6 +767,9 @@ def replay_routes(run, label, by, procs):
     bad = rendered = 0
     for job, (r, rn) in zip(jobs, results):
         rendered += rn % 1000000 if rn < 0 else rn
+        if r is not None and r.get("evidence"):
+            _note_evidence(run, r)
+            r = None
         if r is not None:
             bad += 1
             r["spec_outcomes"] = job[1]
